@@ -479,6 +479,59 @@ def _observe_proc(case: dict) -> dict:
     return o
 
 
+Q_FILE = {("a",): "a/__init__.py", ("a", "b"): "a/b.py", ("c",): "c.py"}
+_RE_DISALLOWED = re.compile(r"^Disallowed import of module '(\w+)' \(code: disallowed_import\)\nIn (\S+) at line \d+$", re.M)
+
+
+def cli_history_ok(case: dict) -> bool:
+    """Histories the real program can perform in one run: list lookups for distinct real modules."""
+    qs = [tuple(lk["q"]) for lk in case["lookups"]]
+    return (all(lk["kind"] == "list" for lk in case["lookups"]) and all(q in Q_FILE for q in qs)
+            and len(set(qs)) == len(qs) and case["cmd"] != "v2" and case["layout"] == "flat")
+
+
+def _observe_cli_history(case: dict) -> dict:
+    """`python -m pyanalyze --config-file f1.toml [--disallowed-imports M] FILE FILE ...` in ONE run: the list
+    kind is `disallowed_imports`, every file imports every module a section can name, and the diagnostics of a
+    file show the effective value for that file's module (as a set) after whatever was looked up before."""
+    c = {**case, "_cli": True}
+    root = core.new_dir("c18-cli").resolve()
+    write_files(c, root)
+    d1 = root / "d1"
+    (d1 / "a").mkdir()
+    source = "".join(f"import {m}\n" for m in sorted(MODULE_TAG))
+    files = [Q_FILE[tuple(lk["q"])] for lk in case["lookups"]]
+    for f in Q_FILE.values():
+        (d1 / f).write_text(source)
+    env = core.repo_env()
+    env["PYTHONPATH"] = str(core.REPO)
+    cmd = [sys.executable, "-m", "pyanalyze", "--config-file", "f1.toml"]
+    if case["cmd"] == "v1":
+        cmd += ["--disallowed-imports", TAG_MODULE["cmd"]]
+    proc = subprocess.run(cmd + files, cwd=d1, env=env, stdout=subprocess.PIPE, stderr=subprocess.PIPE, text=True, timeout=900)
+    shutil.rmtree(root, ignore_errors=True)
+    clean = {k: v for k, v in case.items() if not k.startswith("_")}
+    o = {"case": clean, "src": "cli", "cmdinsts": [], "mutated": False, "asset": True}
+    if "Traceback" in proc.stderr:
+        o["real"] = [["raised", (proc.stderr.strip().splitlines() or ["?"])[-1][:80]]]
+        return o
+    per_file: dict[str, set[str]] = {f: set() for f in files}
+    for m in _RE_DISALLOWED.finditer(proc.stdout + proc.stderr):
+        if m.group(2) in per_file and m.group(1) in MODULE_TAG:
+            per_file[m.group(2)].add(MODULE_TAG[m.group(1)])
+    # the default of disallowed_imports is []; the model's list default is the element "dflt"
+    o["real"] = [sorted(per_file[f]) + ["dflt"] for f in files]
+    return o
+
+
+def observe_cli_history(cases: list[dict]) -> list[dict]:
+    with ThreadPoolExecutor(8) as ex:
+        obs = list(ex.map(_observe_cli_history, cases))
+    for tid, o in enumerate(obs):
+        o["tid"] = tid
+    return obs
+
+
 def observe_proc(cases: list[dict]) -> list[dict]:
     with ThreadPoolExecutor(8) as ex:
         obs = list(ex.map(_observe_proc, cases))
@@ -564,6 +617,7 @@ _SENS = [
     ("Config.argvfirst.cfg", "ArgvFirstWinsFollowsDocs", "a repeated --flag / --int N keeps its first value"),
     ("Config.allbeats.cfg", "AllBeatsSingleFollowsDocs", "--enable-all / --disable-all override -e / -d"),
     ("Config.noclasscfg.cfg", "NoClassConfigFollowsDocs", "the visitor class's config_filename is ignored"),
+    ("Config.aliasfirst.cfg", "AliasFirstFollowsDocs", "a concatenating lookup accumulates in the stored list (lookups not pure)"),
 ]
 
 
@@ -582,7 +636,10 @@ def sensitivity(check: core.Check) -> None:
     # corrupted observations: a real code that let the lower layer win over a falsy command-line value
     base = {"files": [{"top": {"val": "v1", "da": False}, "ova": {"val": "absent", "da": False},
                        "ovab": {"val": "absent", "da": False}, "abfirst": False, "extpos": "first"}],
-            "q": [], "bad": "none", "badfile": 0, "badloc": "top", "cfgsrc": "arg", "layout": "flat"}
+            "q": [], "bad": "none", "badfile": 0, "badloc": "top", "cfgsrc": "arg", "layout": "flat", "lookups": []}
+    hist = {**base, "kind": "list", "default": ["dflt"], "route": "inst", "argv": [], "cmd": "none",
+            "files": [dict(base["files"][0], ova={"val": "v1", "da": False})],
+            "lookups": [{"kind": "list", "q": ["a"]}, {"kind": "list", "q": ["c"]}, {"kind": "list", "q": ["a"]}]}
     corrupted = [
         {**base, "kind": "flag", "default": ["F"], "route": "argv", "argv": ["neg"], "cmd": "none", "_real": ["T"], "_ci": []},
         {**base, "kind": "int", "default": ["d"], "route": "kwargs", "argv": [], "cmd": "v2", "_real": ["i5"], "_ci": []},
@@ -591,22 +648,35 @@ def sensitivity(check: core.Check) -> None:
         # right value, but the command-line instance is missing: drift of the assembly model, not a violation
         {**base, "kind": "flag", "default": ["F"], "route": "argv", "argv": ["neg"], "cmd": "none", "_real": ["F"], "_ci": [],
          "files": [dict(base["files"][0], top={"val": "none", "da": False})]},
+        # a single lookup with the right value that changed a stored instance
+        {**base, "kind": "list", "default": ["dflt"], "route": "inst", "argv": [], "cmd": "none", "_real": ["f1.top", "dflt"],
+         "_ci": [], "_mut": True},
+        # histories: the override's value leaks to an unrelated module on the 2nd lookup / duplicates on the 3rd /
+        # wrong already on the fresh object / all values right but the stored instances changed / all right
+        {**hist, "_real": [["f1.a", "f1.top", "dflt"], ["f1.top", "f1.a", "dflt"], ["f1.a", "f1.top", "dflt"]], "_ci": []},
+        {**hist, "_real": [["f1.a", "f1.top", "dflt"], ["f1.top", "dflt"], ["f1.a", "f1.top", "dflt", "f1.top", "dflt"]], "_ci": []},
+        {**hist, "_real": [["f1.top", "f1.a", "dflt"], ["f1.top", "dflt"], ["f1.a", "f1.top", "dflt"]], "_ci": []},
+        {**hist, "_real": [["f1.a", "f1.top", "dflt"], ["f1.top", "dflt"], ["f1.a", "f1.top", "dflt"]], "_ci": [], "_mut": True},
+        {**hist, "_real": [["f1.a", "f1.top", "dflt"], ["f1.top", "dflt"], ["f1.a", "f1.top", "dflt"]], "_ci": []},
     ]
     obs = []
     for tid, c in enumerate(corrupted):
         c = dict(c)
-        real, ci = c.pop("_real"), c.pop("_ci")
-        obs.append({"tid": tid, "case": c, "real": real, "cmdinsts": ci})
+        real, ci, mut = c.pop("_real"), c.pop("_ci"), c.pop("_mut", False)
+        obs.append({"tid": tid, "case": c, "real": real, "cmdinsts": ci, "mutated": mut, "asset": False})
     verdicts, _ = core.adjudicate("ConfigTrace", "ConfigTrace.cfg", obs)
     want = {0: "viol:CommandLineValueWins", 1: "viol:CommandLineValueWins", 2: "viol:CommandLineValueWins",
-            3: "viol:CommandLineValueWins", 4: "drift:ImplCmdInsts"}
+            3: "viol:CommandLineValueWins", 4: "drift:ImplCmdInsts", 5: "viol:LookupsDoNotChangeConfiguration",
+            6: "viol:LookupIndependentOfHistory", 7: "viol:LookupIndependentOfHistory", 8: "viol:LayeringFollowsDocs",
+            9: "viol:LookupsDoNotChangeConfiguration", 10: "ok"}
     got = {tid: (verdicts.get(tid) or ["ok"])[0] for tid in want}
     if got != want:
         raise core.MachineryError(f"sensitivity self-test failed: corrupted observations judged {got}, expected {want}")
     check.cov["sensitivity"] = (
         "TLC rejects each seeded Impl model: " + "; ".join(f"{what} -> {inv} violated" for _, inv, what in _SENS)
         + "; ConfigTrace rejects 4 corrupted observations (lower layer winning over a falsy / specific command-line "
-        "value) and reports a missing command-line instance as drift"
+        "value), reports a missing command-line instance as drift, and judges 5 corrupted histories (leak to an unrelated "
+        "module, duplicates on a repeated lookup, wrong on the fresh object, changed stored instances) by the right clause"
     )
 
 
@@ -617,10 +687,12 @@ def sensitivity(check: core.Check) -> None:
 # deterministic hash where the space is larger than what is replayed: (modulus for the error-code kind, modulus for
 # the other kinds); 1 = every case.  Malformed configurations are always printed.
 EMIT = {
-    "Config.quick.cfg": (24, 4),
+    "Config.quick.cfg": (32, 6),
     "Config.thorough.cfg": (256, 16),
-    "Config.cmdline.cfg": (4, 1),
+    "Config.cmdline.cfg": (6, 1),
     "Config.cmdline3.cfg": (32, 4),
+    "Config.hist.cfg": (1, 12),     # histories of >= 2 lookups: 1/12
+    "Config.hist3.cfg": (1, 64),
 }
 
 
@@ -658,19 +730,25 @@ def run(check: core.Check) -> None:
     #    simulation of the rich 3-file space (beyond the exhaustive bound) run at the same time.
     cfg = "Config.quick.cfg" if quick else "Config.thorough.cfg"
     cfg2 = "Config.cmdline.cfg" if quick else "Config.cmdline3.cfg"
+    #    (c) the history slice: ONE Options object, a sequence of <= 3 lookups (option kind, module) on it
+    cfg3 = "Config.hist.cfg" if quick else "Config.hist3.cfg"
     with _phase(check, "TLC: model checking, sensitivity, simulation (concurrent)"):
-        with ThreadPoolExecutor(4) as ex:
+        with ThreadPoolExecutor(5) as ex:
             f_a = ex.submit(_model_check, check, cfg, "Config layering slice")
             f_b = ex.submit(_model_check, check, cfg2, "Config command-line slice")
+            f_h = ex.submit(_model_check, check, cfg3, "Config history slice")
             f_s = ex.submit(sensitivity, check)
             f_sim = ex.submit(core.simulate_cases, "ConfigSim", "Config.sim.cfg", 3000 if quick else 60000,
                               depth=8, seed=check.seed + 1, check=check)
             res, cases = f_a.result()
             res2, cl_cases = f_b.result()
+            res3, hist_cases = f_h.result()
             f_s.result()
             sim_cases = f_sim.result()
     check.add_tlc("exhaustive:" + cfg, res, printed_cases=len(cases), print_moduli=EMIT[cfg])
     check.add_tlc("exhaustive:" + cfg2, res2, printed_cases=len(cl_cases), print_moduli=EMIT[cfg2])
+    check.add_tlc("exhaustive:" + cfg3, res3, printed_cases=len(hist_cases), print_moduli=EMIT[cfg3])
+    check.cov["history_cases"] = len(hist_cases)
     # 2. S->C replay of the printed cases through the real code, adjudicated by TLC
     capped = False
     for lst, limit in ((cases, 50000 if quick else 700000), (cl_cases, 130000 if quick else 900000)):
@@ -699,12 +777,18 @@ def run(check: core.Check) -> None:
         "routes {kwargs (config file given / declared by the class / none), argv (every command line of <= 2 tokens for "
         "the option)" + ("" if quick else ", inst") + "} x 4 queried modules x defaults (incl. the truthy default 10 of "
         "maximum_positional_args and both error-code defaults), plus 14 kinds of malformed configuration at every "
-        "file/section with and without a command-line value. Simulation: rich 3-file space, all kinds and routes. "
+        "file/section with and without a command-line value. "
+        f"History slice ({cfg3}): ONE real Options object per case (chains of <= {2 if quick else 3} slim files x cmdline) and "
+        f"every sequence of <= 3 lookups (kind in {'{list,int}' if quick else '{list,int,paths}'} x 4 modules) performed on it "
+        "through for_module(...).get_value_for; every lookup judged against the documented value, stored instances and class "
+        "defaults compared before/after (every single-lookup case too); a sample performed by the real program in one run "
+        "over several files. Simulation: rich 3-file space, all kinds and routes. "
         "non-trivial = more than one file, or a command-line value/argv, or malformed"
     )
     judge(check, cases, "tlc-exhaustive")
     cases.clear()
     judge(check, cl_cases, "tlc-cmdline")
+    judge(check, hist_cases, "tlc-history")
     judge(check, sim_cases, "tlc-simulate")
     # 3. the real program for a sample of the argv cases (module () only: that is what --display-options shows)
     argv_cases = [c for c in cl_cases if c["route"] == "argv" and c["q"] == [] and (c["argv"] or c["bad"] != "none")]
@@ -717,6 +801,17 @@ def run(check: core.Check) -> None:
         proc_obs = observe_proc(proc_cases)
     judge_obs(check, proc_obs, "subprocess --display-options")
     check.cov["subprocess_cases"] = len(proc_obs)
+    # 4. the real program over several files in ONE run, for a sample of the histories it can perform (preferring
+    #    those where some module gets fewer layers than an earlier one: that is where a leak would show)
+    cli_cases = [c for c in hist_cases if cli_history_ok(c)]
+    rnd.shuffle(cli_cases)
+    cli_cases.sort(key=lambda c: not (len(c["files"]) > 1 and any(f["ova"]["val"] == "v1" for f in c["files"])
+                                      and any(f["top"]["val"] == "v1" for f in c["files"])))
+    cli_cases = cli_cases[: 16 if quick else 160]
+    with _phase(check, "subprocess sample"):
+        cli_obs = observe_cli_history(cli_cases)
+    judge_obs(check, cli_obs, "subprocess: one run over several files")
+    check.cov["subprocess_history_cases"] = len(cli_obs)
 
 
 def replay(check: core.Check, witness: dict) -> None:
